@@ -2,11 +2,16 @@
 Model/Info/Mp4.lean — the two fixed-layout decoders inside `MP4Info.load` (mutagen/mp4/__init__.py) and
 `AudioSampleEntry.__init__` (mutagen/mp4/_as_entry.py), on the PAYLOAD of the atoms (code side):
 `mdhd` → `length`, and the common part of the first `stsd` entry → `channels`, `sample_size`,
-`sample_rate`.  NOT modelled here: the atom tree (`Atoms`, Model/Container/Mp4.lean `parse`), the track
-search, and the codec-specific boxes (`esds`, `alac`, `dac3`) that may overwrite these values.
+`sample_rate`; then the whole of `MP4Info.load` as `MP4.load` runs it: the atom tree (`Atoms`,
+Model/Container/Mp4.lean `parse`), the search for the audio track, `mdhd`, `stsd` with its FullBox header,
+`AudioSampleEntry` with the codec-specific boxes `esds` (ES_Descriptor → DecoderConfigDescriptor →
+AudioSpecificConfig with GASpecificConfig and program_config_element), `alac` and `dac3`.
+Not modelled: `codec_description`.
 -/
 import MutagenModel.Model.Info.Common
 import MutagenModel.Model.Container.Mp4
+import MutagenModel.Model.Bits
+import MutagenModel.Generated.Tables
 set_option linter.unusedVariables false
 namespace Mutagen.Info.Mp4
 open Mutagen Mutagen.Info
@@ -40,10 +45,210 @@ def mdhdLength (payload : Bytes) : Except PyErr LExpr :=
         .ok (if unit = 0 then .int 0 else .div (.flt (.nat length)) (.nat unit))
     else .error .mutagen
 
+/-! ### the atoms -/
+
+open Mutagen.Mp4C in
+/-- `atom.read(fileobj)`: `none` when fewer than `datalength` bytes are there -/
+def atomRead (f : Bytes) (a : PAtom) : Option Bytes :=
+  let n := a.length - (a.dataoffset - a.offset)
+  let d := readAt f a.dataoffset n
+  if d.length = n then some d else none
+
+open Mutagen.Mp4C in
+/-- `Atom(fileobj)` (level 0) with the file object at `pos` of `d`.  `fileobj.seek(offset + length)` of a
+childless atom raises OverflowError (→ AtomError) from 2^63 on. -/
+def atomAt (d : Bytes) (pos : Nat) : Except PyErr PAtom :=
+  match parseAtom (d.length + 4) d pos 0 with
+  | .error e => .error e
+  | .ok (a, _) =>
+    if !isContainer a.name && decide (a.offset + a.length ≥ 2 ^ 63) then .error .mutagen else .ok a
+
+/-! ### BitReader: a cursor `p` (bits consumed or skipped) over the bits `b` of the data -/
+
+/-- `r.bits(c)`: BitReaderError when the bits are not there -/
+def getBits (b : List Bool) (p c : Nat) : Option (Nat × Nat) :=
+  if c = 0 then some (0, p)
+  else if p + c ≤ b.length then some (bitsToNat ((b.drop p).take c), p + c) else none
+
+/-- `r.skip(c)`: whole bytes are skipped with `seek` (also beyond the end); only a last partial byte is read -/
+def skipBits (b : List Bool) (p c : Nat) : Option Nat :=
+  if (p + c) % 8 ≠ 0 ∧ (p + c) / 8 ≥ b.length / 8 then none else some (p + c)
+
+/-! ### esds -/
+
+/-- `DecoderSpecificInfo` (AudioSpecificConfig) as far as the attributes need it -/
+structure Asc where
+  aot : Nat
+  freq : Nat
+  chanConf : Nat
+  /-- sbrPresentFlag: -1, 0, 1 -/
+  sbr : Int := -1
+  ps : Int := -1
+  extFreq : Nat := 0
+  extChanConf : Option Nat := none
+  pceChannels : Option Nat := none
+deriving DecidableEq, Repr
+
+/-- `_get_audio_object_type` -/
+def getAot (b : List Bool) (p : Nat) : Option (Nat × Nat) :=
+  match getBits b p 5 with
+  | none => none
+  | some (t, p) => if t = 31 then (match getBits b p 6 with | none => none | some (e, p) => some (32 + e, p)) else some (t, p)
+
+/-- `_get_sampling_freq` (the table: `Generated.aacFreqs`, regenerated from mutagen/aac.py; `_as_entry.py`
+carries a copy of the same list — the tie goes through every index) -/
+def getFreq (b : List Bool) (p : Nat) : Option (Nat × Nat) :=
+  match getBits b p 4 with
+  | none => none
+  | some (i, p) => if i = 15 then getBits b p 24 else some (Generated.aacFreqs.getD i 0, p)
+
+/-- the loop over the front, side and back elements of `program_config_element` -/
+def pceElems (b : List Bool) : Nat → Nat → Nat → Option (Nat × Nat)
+  | 0, p, ch => some (ch, p)
+  | n + 1, p, ch =>
+    match getBits b p 1 with
+    | none => none
+    | some (cpe, p) =>
+      match skipBits b p 4 with
+      | none => none
+      | some p => pceElems b n p (ch + 1 + (if cpe = 1 then 1 else 0))
+
+/-- `ProgramConfigElement(r)` (mutagen/aac.py): the channel count and the cursor -/
+def pce (b : List Bool) (p : Nat) : Option (Nat × Nat) := do
+  let (_, p) ← getBits b p 4
+  let (_, p) ← getBits b p 2
+  let (_, p) ← getBits b p 4
+  let (nf, p) ← getBits b p 4
+  let (ns, p) ← getBits b p 4
+  let (nb, p) ← getBits b p 4
+  let (nl, p) ← getBits b p 2
+  let (na, p) ← getBits b p 3
+  let (nc, p) ← getBits b p 4
+  let (mono, p) ← getBits b p 1
+  let p ← if mono = 1 then skipBits b p 4 else some p
+  let (stereo, p) ← getBits b p 1
+  let p ← if stereo = 1 then skipBits b p 4 else some p
+  let (mat, p) ← getBits b p 1
+  let p ← if mat = 1 then skipBits b p 3 else some p
+  let (ch, p) ← pceElems b (nf + ns + nb) p 0
+  let p ← skipBits b p (4 * nl)
+  let p ← skipBits b p (4 * na)
+  let p ← skipBits b p (5 * nc)
+  -- r.align()
+  let p := (p + 7) / 8 * 8
+  let (cb, p) ← getBits b p 8
+  let p ← skipBits b p (8 * cb)
+  some (ch + nl, p)
+
+/-- `GASpecificConfig(r, info)`: the cursor, `pce_channels`, and whether NotImplementedError ended it -/
+def gaSpecific (b : List Bool) (p : Nat) (aot chanConf : Nat) : Option (Nat × Option Nat × Bool) := do
+  let p ← skipBits b p 1
+  let (dep, p) ← getBits b p 1
+  let p ← if dep = 1 then skipBits b p 14 else some p
+  let (extFlag, p) ← getBits b p 1
+  let (pc, p) ← if chanConf = 0 then (do let (c, p) ← pce b p; some (some c, p)) else some (none, p)
+  let p ← if aot = 6 ∨ aot = 20 then skipBits b p 3 else some p
+  if extFlag = 1 then
+    let p ← if aot = 22 then skipBits b p 16 else some p
+    let p ← if aot = 17 ∨ aot = 19 ∨ aot = 20 ∨ aot = 23 then skipBits b p 3 else some p
+    let (e3, p) ← getBits b p 1
+    some (p, pc, decide (e3 ≠ 0))
+  else some (p, pc, false)
+
+/-- the part of `_parse` behind GASpecificConfig: epConfig and the backward compatible SBR / PS signalling -/
+def ascTail (b : List Bool) (len : Nat) (a : Asc) (extAot : Nat) (p : Nat) : Option Asc := do
+  let (stop, p) ←
+    if a.aot ∈ [17, 19, 20, 21, 22, 23, 24, 25, 26, 27, 39] then
+      (do let (ep, p) ← getBits b p 2; some (decide (ep = 2 ∨ ep = 3), p))
+    else some (false, p)
+  if stop then some a
+  else if extAot ≠ 5 ∧ (len * 8 : Int) - p ≥ 16 then
+    let (sync, p) ← getBits b p 11
+    if sync = 0x2b7 then
+      let (ext, p) ← getAot b p
+      let (a, p) ←
+        if ext = 5 then
+          (do let (sbr, p) ← getBits b p 1
+              if sbr = 1 then
+                let (ef, p) ← getFreq b p
+                let a := { a with sbr := 1, extFreq := ef }
+                if (len * 8 : Int) - p ≥ 12 then
+                  let (s2, p) ← getBits b p 11
+                  if s2 = 0x548 then
+                    let (ps, p) ← getBits b p 1
+                    some ({ a with ps := ps }, p)
+                  else some (a, p)
+                else some (a, p)
+              else some ({ a with sbr := sbr }, p))
+        else some (a, p)
+      if ext = 22 then
+        let (sbr, p) ← getBits b p 1
+        let (a, p) ← if sbr = 1 then (do let (ef, p) ← getFreq b p; some ({ a with sbr := 1, extFreq := ef }, p))
+                      else some ({ a with sbr := sbr }, p)
+        let (ecc, _) ← getBits b p 4
+        some { a with extChanConf := some ecc }
+      else some a
+    else some a
+  else some a
+
+/-- `DecoderSpecificInfo._parse(r, length)` on the bits `b` of the descriptor's contents -/
+def ascParse (b : List Bool) (len : Nat) : Option Asc := do
+  let (aot, p) ← getAot b 0
+  let (freq, p) ← getFreq b p
+  let (cc, p) ← getBits b p 4
+  let a0 : Asc := { aot := aot, freq := freq, chanConf := cc }
+  let (a, extAot, p) ←
+    if aot = 5 ∨ aot = 29 then
+      (do let (ef, p) ← getFreq b p
+          let (aot2, p) ← getAot b p
+          let a : Asc := { a0 with aot := aot2, sbr := 1, ps := if aot = 29 then 1 else -1, extFreq := ef }
+          if aot2 = 22 then
+            let (ecc, p) ← getBits b p 4
+            some ({ a with extChanConf := some ecc }, 5, p)
+          else some (a, 5, p))
+    else some (a0, 0, p)
+  if a.aot ∈ [1, 2, 3, 4, 6, 7, 17, 19, 20, 21, 22, 23] then
+    let (p, pc, notImpl) ← gaSpecific b p a.aot a.chanConf
+    let a := { a with pceChannels := pc }
+    if notImpl then some a else ascTail b len a extAot p
+  else some a
+
+/-- `DecoderSpecificInfo.sample_rate` -/
+def Asc.sampleRate (a : Asc) : Nat :=
+  if a.sbr = 1 then a.extFreq
+  else if a.sbr = 0 then a.freq
+  else if a.aot ∉ [1, 2, 3, 4, 6, 17, 19, 20, 22] then a.freq
+  else if a.freq > 24000 then a.freq
+  else 0
+
+/-- `DecoderSpecificInfo.channels` -/
+def Asc.channels (a : Asc) : Nat :=
+  match a.pceChannels with
+  | some c => c
+  | none =>
+    let conf := a.extChanConf.getD a.chanConf
+    if conf = 1 then (if a.ps = -1 then 0 else if a.ps = 1 then 2 else 1)
+    else if conf = 7 then 8
+    else if conf > 7 then 0
+    else conf
+
+/-- `_parse_desc_length_file`: up to four bytes of 7 bits; `none`: ValueError -/
+def descLen (d : Bytes) : Nat → Nat → Nat → Option (Nat × Nat)
+  | 0, _, _ => none
+  | n + 1, pos, v =>
+    match d[pos]? with
+    | none => none
+    | some x =>
+      let v := v * 128 + x.toNat % 128
+      if x.toNat / 128 = 0 then some (v, pos + 1) else descLen d n (pos + 1) v
+
 structure Entry where
   channels : Nat
   sampleSize : Nat
   sampleRate : Nat
+  bitrate : Nat := 0
+  /-- what is appended to the entry's name in `codec` (".40.2") as (objectTypeIndication, audioObjectType) -/
+  codecParam : Option (Nat × Option Nat) := none
 deriving DecidableEq, Repr
 
 /-- the BitReader part of `AudioSampleEntry.__init__` on the entry's payload: 28 bytes are needed
@@ -53,36 +258,191 @@ def entryBase (payload : Bytes) : Except PyErr Entry :=
   else .ok { channels := ofBE (readAt payload 16 2), sampleSize := ofBE (readAt payload 18 2),
              sampleRate := ofBE (readAt payload 24 4) / 2 ^ 16 }
 
-/-- `extra = Atom(fileobj)` behind the fixed fields: the header of the first child box must be readable
-and its size field sensible (AtomError → ASEntryError → MP4StreamInfoError).  A child with one of the
-container names makes `Atom.__init__` descend into it: outside this model. -/
-def extraAtom (d : Bytes) : Except PyErr Unit :=
-  let hdr := d.take 8
-  if hdr.length < 8 then .error .mutagen
-  else
-    let len := ofBE (hdr.take 4)
-    let name := hdr.drop 4
-    let sized : Except PyErr Unit :=
-      if len = 1 then
-        let ext := readAt d 8 8
-        if ext.length < 8 then .error .mutagen else if ofBE ext < 16 then .error .mutagen
-        -- `fileobj.seek(self.offset + self.length)`: OverflowError → AtomError; the box starts at byte 28 of the payload
-        else if 28 + ofBE ext ≥ 2 ^ 63 then .error .mutagen
-        else .ok ()
-      else if len = 0 then .ok ()
-      else if len < 8 then .error .mutagen
-      else .ok ()
-    match sized with
-    | .error e => .error e
-    | .ok _ => if Mutagen.Mp4C.isContainer name then .error .notImplemented else .ok ()
+/-- `_parse_esds` on the payload of the esds box; every exception becomes MP4StreamInfoError -/
+def parseEsds (e : Entry) (payload : Bytes) : Except PyErr Entry :=
+  match fullAtom payload with
+  | .error err => .error err
+  | .ok (version, d) =>
+    if version ≠ 0 then .error .mutagen
+    else
+      let r : Option Entry := do
+        let tag ← d[0]?
+        if tag.toNat ≠ 3 then none
+        -- ES_Descriptor.parse
+        let (_, pos) ← descLen d 4 1 0
+        -- ES_ID, flags
+        if d.length < pos + 3 then none
+        let flags := (d[pos + 2]?.map UInt8.toNat).getD 0
+        let pos := pos + 3
+        let pos ← if flags / 128 % 2 = 1 then (if d.length < pos + 2 then none else some (pos + 2)) else some pos
+        let pos ← if flags / 64 % 2 = 1 then
+            (do let n ← d[pos]?
+                -- `r.bytes(URLlength)`
+                if d.length < pos + 1 + n.toNat then none else some (pos + 1 + n.toNat))
+          else some pos
+        let pos ← if flags / 32 % 2 = 1 then (if d.length < pos + 2 then none else some (pos + 2)) else some pos
+        let tag ← d[pos]?
+        if tag.toNat ≠ 4 then none
+        -- DecoderConfigDescriptor.parse
+        let (dlen, pos) ← descLen d 4 (pos + 1) 0
+        if d.length < pos + 13 then none
+        let oti := ofBE (readAt d pos 1)
+        let streamType := ofBE (readAt d (pos + 1) 1) / 4
+        let avg := ofBE (readAt d (pos + 9) 4)
+        let e1 : Entry := { e with bitrate := avg, codecParam := some (oti, none) }
+        if ¬ (oti = 0x40 ∧ streamType = 5) then some e1
+        else if dlen = 13 then some e1
+        else
+          let tag ← d[pos + 13]?
+          if tag.toNat ≠ 5 then some e1
+          else
+            -- DecoderSpecificInfo.parse
+            let (alen, pos) ← descLen d 4 (pos + 14) 0
+            let a ← ascParse (bytesToBits (d.drop pos)) alen
+            some { e1 with codecParam := some (oti, some a.aot),
+                           channels := if a.channels ≠ 0 then a.channels else e1.channels,
+                           sampleRate := if a.sampleRate ≠ 0 then a.sampleRate else e1.sampleRate }
+      match r with
+      | none => .error .mutagen
+      | some e' => .ok e'
 
-/-- `AudioSampleEntry(atom, fileobj)` up to the codec-specific part, on the entry's payload -/
-def entry (payload : Bytes) : Except PyErr Entry :=
-  match entryBase payload with
-  | .error e => .error e
-  | .ok r =>
-    match extraAtom (payload.drop 28) with
+/-- `_parse_alac` on the payload of the inner alac box (ALAC magic cookie) -/
+def parseAlac (e : Entry) (payload : Bytes) : Except PyErr Entry :=
+  match fullAtom payload with
+  | .error err => .error err
+  | .ok (version, d) =>
+    if version ≠ 0 then .error .mutagen
+    else if d.length < 5 then .error .mutagen
+    else if ofBE (readAt d 4 1) ≠ 0 then .ok e            -- compatibleVersion
+    else if d.length < 24 then .error .mutagen
+    else .ok { e with sampleSize := ofBE (readAt d 5 1), channels := ofBE (readAt d 9 1), bitrate := ofBE (readAt d 16 4),
+                      sampleRate := ofBE (readAt d 20 4) }
+
+/-- `_parse_dac3`: fscod 2, bsid 5, bsmod 3, acmod 3, lfeon 1, bit_rate_code 5, reserved 5 (the tables:
+`Generated.ac3Channels`, `Generated.ac3Bitrates`, regenerated from mutagen/ac3.py; `_as_entry.py` carries copies) -/
+def parseDac3 (e : Entry) (payload : Bytes) : Except PyErr Entry :=
+  if payload.length < 3 then .error .mutagen
+  else
+    let v := ofBE (payload.take 3)
+    let acmod := v / 2 ^ 11 % 8
+    let lfeon := v / 2 ^ 10 % 2
+    let brc := v / 2 ^ 5 % 32
+    .ok { e with channels := Generated.ac3Channels.getD acmod 0 + lfeon,
+                 bitrate := match Generated.ac3Bitrates[brc]? with | some k => k * 1000 | none => e.bitrate }
+
+def nMp4a : Bytes := [0x6d, 0x70, 0x34, 0x61]
+def nEsds : Bytes := [0x65, 0x73, 0x64, 0x73]
+def nAlac : Bytes := [0x61, 0x6c, 0x61, 0x63]
+def nAc3 : Bytes := [0x61, 0x63, 0x2d, 0x33]
+def nDac3 : Bytes := [0x64, 0x61, 0x63, 0x33]
+
+open Mutagen.Mp4C in
+/-- `AudioSampleEntry(atom, fileobj)` with `d` the bytes the entry atom was read from; gives the entry and
+the atom's name (`codec` starts with it) -/
+def sampleEntry (d : Bytes) (ea : PAtom) : Except PyErr Entry :=
+  match atomRead d ea with
+  | none => .error .mutagen
+  | some payload =>
+    match entryBase payload with
     | .error e => .error e
-    | .ok _ => .ok r
+    | .ok base =>
+      match atomAt payload 28 with
+      | .error e => .error e
+      | .ok extra =>
+        let inner : Except PyErr Bytes := match atomRead payload extra with | none => .error .mutagen | some x => .ok x
+        if ea.name = nMp4a ∧ extra.name = nEsds then
+          (match inner with | .error e => .error e | .ok x => parseEsds base x)
+        else if ea.name = nAlac ∧ extra.name = nAlac then
+          (match inner with | .error e => .error e | .ok x => parseAlac base x)
+        else if ea.name = nAc3 ∧ extra.name = nDac3 then
+          (match inner with | .error e => .error e | .ok x => parseDac3 base x)
+        else .ok base
+
+structure Info where
+  length : LExpr
+  channels : Nat
+  bitsPerSample : Nat
+  sampleRate : Nat
+  bitrate : Nat
+  /-- the name of the sample entry … -/
+  codecName : Bytes
+  /-- … and what `_parse_esds` appends -/
+  codecParam : Option (Nat × Option Nat)
+deriving DecidableEq, Repr
+
+/-- `MP4Info()` -/
+def Info.default : Info :=
+  { length := .flt (.int 0), channels := 0, bitsPerSample := 0, sampleRate := 0, bitrate := 0, codecName := [], codecParam := none }
+
+/-- `_parse_stsd` on the payload of the stsd atom -/
+def parseStsd (i : Info) (payload : Bytes) : Except PyErr Info :=
+  match fullAtom payload with
+  | .error e => .error e
+  | .ok (version, d) =>
+    if version ≠ 0 then .error .mutagen
+    else if d.length < 4 then .error .mutagen              -- cdata.uint32_be_from
+    else if ofBE (d.take 4) = 0 then .ok i
+    else
+      let ed := d.drop 4
+      match atomAt ed 0 with
+      | .error e => .error e
+      | .ok ea =>
+        match sampleEntry ed ea with
+        | .error e => .error e
+        | .ok en =>
+          .ok { i with channels := en.channels, bitsPerSample := en.sampleSize, sampleRate := en.sampleRate,
+                       bitrate := en.bitrate, codecName := ea.name, codecParam := en.codecParam }
+
+def nHdlr : Bytes := [0x68, 0x64, 0x6c, 0x72]
+def nMdhd : Bytes := [0x6d, 0x64, 0x68, 0x64]
+def nStsd : Bytes := [0x73, 0x74, 0x73, 0x64]
+def nSoun : Bytes := [0x73, 0x6f, 0x75, 0x6e]
+
+open Mutagen.Mp4C in
+/-- the loop `for trak in moov.findall(b"trak")`: the first track whose handler type is "soun";
+`ok none`: no such track (MP4NoTrackError) -/
+def findAudioTrak (f : Bytes) : List PAtom → Except PyErr (Option PAtom)
+  | [] => .ok none
+  | t :: r =>
+    if t.name = nTrak then
+      match (path? t.children [nMdia, nHdlr]).bind List.getLast? with
+      | none => .error .mutagen                          -- KeyError (wrapped by MP4.load)
+      | some hdlr =>
+        match atomRead f hdlr with
+        | none => .error .mutagen
+        | some data => if readAt data 8 4 = nSoun then .ok (some t) else findAudioTrak f r
+    else findAudioTrak f r
+
+open Mutagen.Mp4C in
+/-- `Atoms(fileobj)` and `MP4Info.load(atoms, fileobj)` as `MP4.load` runs them: AtomError and every
+exception of `load` become the module's error (a struct.error from a short `mdhd` included),
+MP4NoTrackError leaves the default values. -/
+def parse (f : Bytes) : Except PyErr Info :=
+  match Mp4C.parse f with
+  | .error e => .error e
+  | .ok atoms =>
+    match child? atoms nMoov with
+    | none => .error .mutagen
+    | some moov =>
+      match findAudioTrak f moov.children with
+      | .error e => .error e
+      | .ok none => .ok Info.default
+      | .ok (some trak) =>
+        match (path? trak.children [nMdia, nMdhd]).bind List.getLast? with
+        | none => .error .mutagen
+        | some mdhd =>
+          match atomRead f mdhd with
+          | none => .error .mutagen
+          | some data =>
+            match mdhdLength data with
+            | .error _ => .error .mutagen
+            | .ok len =>
+              let i := { Info.default with length := len }
+              match (path? trak.children [nMdia, nMinf, nStbl, nStsd]).bind List.getLast? with
+              | none => .ok i
+              | some stsd =>
+                match atomRead f stsd with
+                | none => .error .mutagen
+                | some sd => parseStsd i sd
 
 end Mutagen.Info.Mp4
